@@ -79,6 +79,10 @@ def run_task(task):
         # the retained-set regeneration branch: threshold 0/1, greedy ASP optimisation on
         k = len(prefix)
         cs += [z3.Int("cfg_thr") >= 0, z3.Int("cfg_thr") <= 1, z3.Bool(f"h{k}_greedy")]
+    if task["params"].get("slice") == "simonly":
+        # simulation minification on the raw candidate set: greedy ASP optimisation off, default configuration
+        k = len(prefix)
+        cs += [z3.Not(z3.Bool(f"h{k}_greedy")), z3.Bool(f"h{k}_sim")] + [z3.Int(c) == -1 for c in CFG]
     H = hist.SymH(net.n)
     selftest = task["params"].get("selftest")
 
@@ -131,6 +135,9 @@ def tasks(tier, seed, selftest=False):
     for p in ((), ("succ",), ("fullbfs",)):
         add("N3", p, 30 if q else 1200, slice_="regen")
         add("D3", p, 15 if q else 900, slice_="regen")
+    for p in ((), ("fullbfs",)):
+        add("N3", p, 30 if q else 1200, slice_="simonly")
+        add("U2", p, 15 if q else 600, slice_="simonly")
     if not q:
         for p in ((), ("succ",), ("fullbfs",)):
             add("U2", p, 900, order="reversed")
